@@ -3,37 +3,67 @@
 The core of C05 — which latitude/longitude cell a piece is attributed to, path
 order, and that shares equal length shares — is searchsorted / midpoint
 arithmetic over real coordinates.  No sound static argument in reach bounds
-it; it is NOT decided.  Only these sub-clauses are visible in code shape:
+it; it is NOT decided.  Only these sub-clauses are decided, all but R3/R6 on
+CLOSED VALUES (c04.Values: locals replaced by their reaching definitions,
+helpers opened, tuples / records taken apart, one canonical spelling), i.e. on
+what flows where and not on how it is written:
 
-R1  starting-point attribution: per-segment altitude and time cell indices are
-    the per-point indices with the *last* point dropped ([:-1]); state
-    variables likewise; at the antimeridian split, on every path to a return,
-    latitude / altitude / time / each state variable are the way-points on that
-    side of element k plus ONE inserted point whose value is a plain copy of
-    element k (the crossing segment's start) — an inserted value computed any
-    other way (element k+1, an interpolation, ...) is reported as such — and the
-    inserted longitude is ±π on the side the path is on (decided by evaluating
-    it for both crossing signs).
-R2  matching lengths: cell, altitude, time, state and integrated outputs are
-    all expanded by the one count vector (shared with C04-R3); flattened
-    lat/lon cell indices are masked by their own NaN masks; the four arrays of
-    the horizontal intersection are received under names of the same axis and
-    kind through whatever container carries them (nested tuples, records read
-    by position or field).
+R1  starting-point attribution: the altitude / time cells returned by the share
+    computation are the per-point look-up of the coordinate as received with
+    the LAST point dropped ([:-1]; slicing before or after the search is the
+    same), state values are variable[:-1]; `[1:]` (end point) or no reduction is
+    reported.  At the antimeridian split, on every path to a return, latitude /
+    altitude / time / each state variable are the way-points on that side of
+    element k plus ONE inserted point whose value is a plain copy of element k
+    (the crossing segment's start) — an inserted value computed any other way
+    (element k+1, an interpolation, ...) is reported as such — and the inserted
+    longitude is ±π on the side the path is on (decided by evaluating it for
+    both crossing signs, through helpers with early returns).
+R2  matching lengths: latitude / longitude cells are the intersection's own
+    index array of that axis with the NaN padding masked out (a following
+    flatten is the identity); altitude, time, state and integrated outputs are
+    all repeated by the number of cells per segment (shared with C04-R3); the
+    four arrays of the horizontal intersection are received under names of the
+    same axis and kind through whatever container carries them (nested tuples,
+    records read by position or field).
 R3  part-suffix agreement (T-ROLE): every first-/second-part quantity is
     computed from inputs of its own part, each output is looked up with its own
     index array (altitude indices index the altitude grid, ...), and halves are
     concatenated first-then-second.
-R8  every cell index is `np.searchsorted(<own axis>, coordinates) − 1`, directly
-    or through one helper that passes axis and coordinates on unaltered; no
-    spacing arithmetic anywhere in the module.
-R9  the public entry points pass way-points, times, altitudes and variables to
-    the gridding as received (no rebinding on the way).
-R4  the same searchsorted-minus-one cell rule is used for the per-point and the
-    per-segment index helpers, on the matching grid axis.
+R4  the altitude / time cell of a segment is searchsorted(<own grid axis>,
+    <own coordinate as received>) − 1: wrong axis, cast coordinates, another
+    side are reported (value followed through any helpers).
+R5  ordering direction: the rows of intersection coordinates sorted descending
+    (negate – sort – negate) are those where the way-point coordinate of the
+    same axis decreases, read from the coordinates themselves; the axis of an
+    array is the returned coordinate array it flows into; the piece end points
+    are the way-points of that axis.
 R6  the latitude and longitude halves of the horizontal intersection are mirror
     images of each other, up to a consistent one-to-one renaming of temporaries
     (whose own statements must then mirror each other too).
+R7  every guarded division (np.divide(where=) or np.where(mask, a / b, dflt)) is
+    guarded exactly on its denominator: the mask, wherever it is built, closes
+    to `denominator != 0`; a tolerance / one-sided test is reported.
+R8  look-up provenance: the four index helpers return, and the intersection's
+    cell-index arrays are built as [start cell | midpoint cells | end cell] from,
+    `np.searchsorted(<grid's own axis of that role>, coordinates) − 1` on the
+    left side: the searched axis is the grid's axis directly or through a guard
+    helper that returns it, the coordinates are the way-points as received /
+    the midpoints of the SAME axis' intersection coordinates with the NaN
+    padding restored, the result is searchsorted − 1.  Index arithmetic on the
+    grid lines, a cast of the coordinates, a lost NaN restoration are reported.
+    Every other np.searchsorted in the module searches an axis of the role of
+    what it looks up; no spacing taken from two axis elements on the gridding
+    path.
+R9  the public entry points pass way-points, times, altitudes and variables to
+    the gridding as received (closed value of every forwarded argument is the
+    caller's own parameter).
+R10 crossing index: the crossing flags are signed (+1 westward, −1 eastward).
+    Every position derived from them (slice bounds, element reads, arguments
+    passed on) is the position of the first NON-ZERO flag (where / nonzero /
+    flatnonzero / argmax of a `!= 0` / abs test); argmax / argmin of the signed
+    array and one-sided tests (`> 0`, `== 1`) are reported; the crossing sign is
+    the flag at that same position; whole-array tests test `!= 0`.
 """
 
 from __future__ import annotations
@@ -42,9 +72,12 @@ import ast
 import re
 
 from ..algebra import AlgebraError, normal_form, poly_equal
-from ..astutil import call_name, calls_in, eval_pred, names_in, norm, single_def_value, stores_to, walk_no_nested
-from .c04 import (SPLITS, SeqView, Undecided, _ix, _ph, closed, elem_form, index_param, marker, ret_elts, rule_suffix,
-                  show_parts)
+from ..astutil import (call_name, calls_in, const_value, eval_pred, kwarg, names_in, norm, single_def_value, stmt_of, stores_to,
+                       walk_no_nested)
+from .c04 import (DIST_FN, HZ_FN, MUT, RES, SPLITS, Pending, SeqView, Undecided, _ix, _ph, alts, module_calls, as_received, canon,
+                  closed, describe_count, elem_form, grid_values, guard_verdict, hz_leaf, index_param, is_mask, is_mk, leaf_role,
+                  lookup_verdict, mentions, parse_lookup, pervar_values, pm, pm_any, ret_elts, rule_suffix, run_rules, same,
+                  share_model, show, show_parts, strip_casts)
 
 GRID = 'gridding/grid.py'
 SHARE_FN = 'Gridder._cell_idxs_touched_by_trajectory_with_state_and_integrated_vars'
@@ -59,111 +92,6 @@ def axis_of(name: str) -> str | None:
         if any(w in t for w in words):
             hits.append(a)
     return hits[0] if len(hits) == 1 else None
-
-
-LOOKUPS = [
-    # (function, target local or None for the return value, axis attribute)
-    ('Gridder._trajectory_intersection_points_and_cells_horizontal', 'lat_grid_indices', 'self.grid_latitudes'),
-    ('Gridder._trajectory_intersection_points_and_cells_horizontal', 'lon_grid_indices', 'self.grid_longitudes'),
-    ('Gridder._trajectory_intersection_points_and_cells_horizontal', 'midpoint_lat_indices', 'self.grid_latitudes'),
-    ('Gridder._trajectory_intersection_points_and_cells_horizontal', 'midpoint_lon_indices', 'self.grid_longitudes'),
-    ('Gridder._trajectory_time_grid_indices', None, 'self.grid_times'),
-    ('Gridder._trajectory_altitude_grid_indices', None, 'self.grid_altitudes'),
-    ('Gridder._trajectory_segment_time_grid_indices', None, 'self.grid_times'),
-    ('Gridder._trajectory_segment_altitude_grid_indices', None, 'self.grid_altitudes'),
-    ('Gridder._polygon_touched_cells', 'min_lat_idx', 'self.grid_latitudes'),
-    ('Gridder._polygon_touched_cells', 'max_lat_idx', 'self.grid_latitudes'),
-    ('Gridder._polygon_touched_cells', 'min_lon_idx', 'self.grid_longitudes'),
-    ('Gridder._polygon_touched_cells', 'max_lon_idx', 'self.grid_longitudes'),
-]
-
-
-def _strip_index_wrappers(e):
-    """peel `.astype(int)`, `[:-1]`, and `- 1`; returns (core, number of `- 1` peeled) or (None, 0)"""
-    minus = 0
-    for _ in range(6):
-        if isinstance(e, ast.Call) and isinstance(e.func, ast.Attribute) and e.func.attr == 'astype' and len(e.args) == 1 \
-                and norm(e.args[0]) in ('int', 'np.int64', 'np.intp'):
-            e = e.func.value
-        elif isinstance(e, ast.Subscript) and isinstance(e.slice, ast.Slice):
-            e = e.value
-        elif isinstance(e, ast.BinOp) and isinstance(e.op, ast.Sub) and norm(e.right) == '1':
-            e, minus = e.left, minus + 1
-        else:
-            break
-    return e, minus
-
-
-def rule_lookup(ctx, m, rule):
-    """Every cell index is obtained by searching the grid axis itself: `np.searchsorted(axis, coordinates) − 1`
-    (left side) on the axis of the index's own role, with the coordinates as given.  That is the only form that is
-    right for every monotone axis; index arithmetic from a spacing, a cast of the coordinates, or another side
-    changes the cell of some point on some grid."""
-    from ..resolve import resolve_call
-    prog = ctx.prog
-    n = 0
-    for fq, target, axis in LOOKUPS:
-        fi = m.func(fq)
-        if target is None:
-            vals = [r.value for r in walk_no_nested(fi.node) if isinstance(r, ast.Return) and r.value is not None]
-        else:
-            vals = [st.value for t, st, how in stores_to(fi.node) if isinstance(t, ast.Name) and t.id == target
-                    and how == 'assign' and not (isinstance(st.value, ast.Call) and call_name(st.value) == 'np.where')]
-        if not vals:
-            ctx.undecided(rule, fi, target or 'return', 'cell look-up not found')
-        for v in vals:
-            n += 1
-            core, minus = _strip_index_wrappers(v)
-            why = None
-            if isinstance(core, ast.Call) and call_name(core) == 'np.searchsorted':
-                call, sub = core, None
-            elif isinstance(core, ast.Call) and resolve_call(prog, fi, core) is not None:
-                # one level of helper: its return must be the same form over its own first two parameters, unaltered
-                h = resolve_call(prog, fi, core)
-                rets = [r.value for r in walk_no_nested(h.node) if isinstance(r, ast.Return) and r.value is not None]
-                ps = [p for p in h.params if p not in ('self', 'cls')]
-                call, sub = None, h
-                if len(rets) == 1 and len(ps) >= 2:
-                    hc, hm = _strip_index_wrappers(rets[0])
-                    minus += hm
-                    rebinds = [norm(st) for t, st, how in stores_to(h.node) if isinstance(t, ast.Name) and t.id in ps[:2]]
-                    if isinstance(hc, ast.Call) and call_name(hc) == 'np.searchsorted' and len(hc.args) >= 2 \
-                            and [norm(a) for a in hc.args[:2]] == ps[:2] and not rebinds:
-                        call = ast.Call(func=hc.func, args=list(core.args[:2]), keywords=hc.keywords)
-                    elif rebinds:
-                        why = (f'{h.name} alters what it searches for before searching (`{rebinds[0][:60]}`): a value just above a '
-                               'grid line can land on or below it and is attributed to the cell below')
-                if call is None and why is None:
-                    why = (f'{h.name}(…) does not search the axis: `{norm(rets[0])[:70] if rets else "?"}` is index arithmetic that '
-                           'is only right for one kind of axis (evenly spaced), so on other grids the start/end cells are wrong, '
-                           'intersection points are generated for grid lines the segment never reaches and shares no longer sum to 1')
-            else:
-                call = None
-                why = (f'`{norm(v)[:70]}` is not a search of the grid axis: index arithmetic is only right for evenly spaced axes')
-            if call is not None:
-                side = next((k.value for k in call.keywords if k.arg == 'side'), None)
-                okc = len(call.args) >= 2 and norm(call.args[0]) == axis and minus == 1 and \
-                    (side is None or (isinstance(side, ast.Constant) and side.value == 'left')) and \
-                    not any(k.arg == 'sorter' for k in call.keywords)
-                if not okc:
-                    why = (f'look-up is `{norm(v)[:70]}`: expected searchsorted({axis}, coordinates) − 1 on the left side '
-                           f'(axis {norm(call.args[0]) if call.args else "?"}, {minus} × “− 1”)')
-            ok = why is None
-            ctx.ob(rule, fi, f'{target or "return"} = {norm(v)[:60]}', ok,
-                   f'searchsorted({axis}, coordinates) − 1' if ok else why, line=v.lineno)
-    ctx.floor(rule + '/lookups', n, 12, 'cell look-ups')
-    # no spacing arithmetic anywhere in the gridding module (zero expected; positive control embedded)
-    def spacing(x):
-        return isinstance(x, ast.BinOp) and isinstance(x.op, ast.Sub) and isinstance(x.left, ast.Subscript) \
-            and isinstance(x.right, ast.Subscript) and norm(x.left.value) == norm(x.right.value) \
-            and isinstance(x.left.slice, ast.Constant) and isinstance(x.right.slice, ast.Constant)
-    ctx.control(rule, spacing(ast.parse('axis[1] - axis[0]').body[0].value), 'embedded `axis[1] - axis[0]` is recognised as a spacing')
-    for fi in m.functions.values():
-        for x in ast.walk(fi.node):
-            if spacing(x):
-                ctx.ob(rule, fi, f'spacing `{norm(x)}`', False,
-                       'a single spacing is taken from two elements of an axis: whatever is computed from it assumes an evenly '
-                       'spaced axis, which the gridder does not require', line=x.lineno)
 
 
 def _root(e):
@@ -413,95 +341,674 @@ def rule_split_points(ctx, m):
         ctx.floor(f'C05-R1/{part}', n, 4, f'inserted-point values in the {part} split (latitude, altitude, time, state)')
 
 
-def run(ctx):
-    prog = ctx.prog
-    m = prog.module(GRID)
-    fn = m.func(SHARE_FN)
+INDEX_HELPERS = {
+    # function: (grid axis attribute, parameter, per-segment)
+    'Gridder._trajectory_time_grid_indices': ('grid_times', 'times', False),
+    'Gridder._trajectory_altitude_grid_indices': ('grid_altitudes', 'altitudes', False),
+    'Gridder._trajectory_segment_time_grid_indices': ('grid_times', 'times', True),
+    'Gridder._trajectory_segment_altitude_grid_indices': ('grid_altitudes', 'altitudes', True),
+}
+ENTRY_POINTS = ('Gridder.grid_trajectory', 'Gridder.cells_touched_by_trajectory_with_state_and_integrated_variables')
 
-    # ---- R4 / R1: index helpers ----------------------------------------------
-    helpers = {
-        'Gridder._trajectory_time_grid_indices': ('self.grid_times', 'times', False),
-        'Gridder._trajectory_altitude_grid_indices': ('self.grid_altitudes', 'altitudes', False),
-        'Gridder._trajectory_segment_time_grid_indices': ('self.grid_times', 'times', True),
-        'Gridder._trajectory_segment_altitude_grid_indices': ('self.grid_altitudes', 'altitudes', True),
-    }
-    for qn, (grid, arg, seg) in helpers.items():
+
+def _role_words(e):
+    """axis words carried by the names of a closed value (locals behind MUT__, intersection roles, parameters)"""
+    out = set()
+    for x in ast.walk(e):
+        w = None
+        if isinstance(x, ast.Name):
+            w = axis_of(x.id)
+        elif isinstance(x, ast.Constant) and isinstance(x.value, str):
+            w = axis_of(x.value.split('@')[0])
+        elif isinstance(x, ast.Attribute) and x.attr.startswith('grid_'):
+            w = axis_of(x.attr)
+        if w:
+            out.add(w)
+    return out
+
+
+def of_axis(axis):
+    """coord_ok: the searched-for values are coordinates of `axis` and are not cast / rounded on the way"""
+    def ok(c):
+        if mentions(c, lambda x: (isinstance(x, ast.keyword) and x.arg == 'dtype') or
+                    (isinstance(x, ast.Attribute) and x.attr in ('astype', 'round', 'floor', 'ceil', 'trunc', 'rint'))):
+            return False, (f'the searched-for values are altered before the search (`{show(c, 60, top=True)}`): a value just above a grid line '
+                           'can land on or below it and is attributed to the cell below')
+        roles = _role_words(c)
+        if roles == {axis}:
+            return True, ''
+        if roles and axis not in roles:
+            return False, f'{"/".join(sorted(roles))} values `{show(c, 50, top=True)}` are looked up on the {axis} axis'
+        return None, f'searched-for values `{show(c, 60, top=True)}` are not recognised as {axis} coordinates'
+    return ok
+
+
+def segment_trail(lk_trail, what):
+    """(ok, why): the per-point values are reduced to per-segment values by dropping the LAST point"""
+    if lk_trail == [':-1']:
+        return True, 'the last point is dropped: each segment takes the value of its starting point'
+    if lk_trail == ['1:']:
+        return False, (f'each segment takes the {what} of its END point (`[1:]`): pieces are attributed to the wrong level / time bin / '
+                       'state')
+    if not lk_trail:
+        return False, f'the per-point {what} are not reduced to one per segment (no `[:-1]`): lengths no longer match'
+    return None, f'per-segment reduction `{"".join("[" + t + "]" for t in lk_trail)}` is not recognised'
+
+
+def rule_lookup(ctx, m, rule):
+    """(two NEIGHBOURING elements of an axis subtracted = a spacing; the extent `axis[-1] - axis[0]` is not)
+    Every cell index is obtained by searching the grid axis itself: `np.searchsorted(axis, coordinates) − 1`
+    (left side) on the axis of the index's own role, with the coordinates as given - decided on the closed value, so
+    through any number of helpers (a guard helper that returns the axis, a shared `searchsorted − 1` helper, ...).
+    Index arithmetic from a spacing, a cast of the coordinates, another side or another axis changes the cell of some
+    point on some grid."""
+    from ..resolve import closure
+    V = grid_values(ctx)
+    pend = Pending(ctx)
+    n = 0
+    # (a) the four altitude / time index helpers, by what they return
+    for qn, (axis, param, seg) in INDEX_HELPERS.items():
         h = m.func(qn)
-        r = [n for n in walk_no_nested(h.node) if isinstance(n, ast.Return)]
-        if len(r) != 1:
-            ctx.undecided('C05-R4', h, 'return', 'not a single-return helper')
-        v = r[0].value
-        txt = norm(v)
-        base = f'(np.searchsorted({grid}, {arg}) - 1)'
-        ok_rule = base in txt
-        ctx.ob('C05-R4', h, f'cell index = searchsorted({grid}, {arg}) − 1', ok_rule,
-               'index of the grid value at or below the coordinate' if ok_rule else
-               f'cell rule changed or applied to the wrong grid axis: {txt[:70]}', line=v.lineno)
-        if seg:
-            ok = txt.endswith('[:-1]')
-            ctx.ob('C05-R1', h, f'per-segment index = per-point index{txt[len(base):] if ok_rule else ""}', ok,
-                   'the last point is dropped: each segment takes the cell of its starting point' if ok else
-                   ('each segment takes the altitude/time cell of a point other than its start '
-                    f'(`{txt[-12:]}`): pieces are attributed to the wrong level / time bin'), line=v.lineno)
-    # ---- R1: state variables and the calls ---------------------------------------
-    sv = single_def_value(fn.node, 'state_variable_values')
-    ok = sv is not None and 'np.repeat(variable[:-1], count_subsegments)' in norm(sv)
-    ctx.ob('C05-R1', fn, 'state values of the segment start repeated per piece', ok,
-           'variable[:-1]' if ok else 'state variables are not taken from the segment\'s starting point',
-           line=(sv.lineno if sv is not None else fn.node.lineno))
-    for var, helper, arg in (('segment_altitude_indices', 'self._trajectory_segment_altitude_grid_indices', 'altitudes'),
-                             ('segment_time_indices', 'self._trajectory_segment_time_grid_indices', 'times')):
-        d = single_def_value(fn.node, var)
-        ok = isinstance(d, ast.Call) and call_name(d) == helper and [norm(a) for a in d.args] == [arg]
-        ctx.ob('C05-R1', fn, f'{var} = {norm(d) if d is not None else "?"}', ok,
-               'per-segment helper on the matching coordinate' if ok else
-               'altitude/time cells come from the wrong helper or coordinate', line=(d.lineno if d is not None else fn.node.lineno))
-    # ---- R2: expansion with the one count vector -----------------------------------
-    reps = {}
-    for t, st, how in stores_to(fn.node):
-        v = getattr(st, 'value', None)
-        if isinstance(t, ast.Name) and isinstance(v, ast.Call) and call_name(v) == 'np.repeat':
-            reps[t.id] = v
-    for out, src in (('touched_cells_altitude_indices', 'segment_altitude_indices'),
-                     ('touched_cells_time_indices', 'segment_time_indices')):
-        v = reps.get(out)
-        ok = v is not None and [norm(a) for a in v.args] == [src, 'count_subsegments']
-        ctx.ob('C05-R2', fn, f'{out} = {norm(v) if v is not None else "?"}', ok,
-               'own per-segment indices expanded by the shared count vector' if ok else
-               f'{out} is expanded from the wrong array or count vector', line=(v.lineno if v is not None else fn.node.lineno))
-    for out, src in (('touched_cells_lat_indices', 'all_subsegment_lat_indices'), ('touched_cells_lon_indices', 'all_subsegment_lon_indices')):
-        d = single_def_value(fn.node, out)
-        ok = d is not None and norm(d) == f'{src}[~np.isnan({src})].flatten().astype(int)'
-        ctx.ob('C05-R2', fn, f'{out} from {src} masked by its own NaN mask', ok, norm(d)[:80] if ok else
-               f'{out} is masked/flattened from a different array: cell rows and columns no longer pair up',
-               line=(d.lineno if d is not None else fn.node.lineno))
-    cnt = single_def_value(fn.node, 'count_subsegments')
-    ok = cnt is not None and norm(cnt) == 'np.count_nonzero(~np.isnan(all_subsegment_lat_indices), axis=1)'
-    ctx.ob('C05-R2', fn, 'count vector = touched cells per segment', ok, norm(cnt) if ok else 'count vector changed')
-    ret = [n for n in walk_no_nested(fn.node) if isinstance(n, ast.Return)]
-    want = ['touched_cells_lat_indices', 'touched_cells_lon_indices', 'touched_cells_altitude_indices',
-            'touched_cells_time_indices', 'state_variable_values', 'integrated_variable_values']
-    ok = len(ret) == 1 and isinstance(ret[0].value, ast.Tuple) and [norm(e) for e in ret[0].value.elts] == want
-    ctx.ob('C05-R2', fn, 'outputs returned in the documented order', ok, 'lat, lon, altitude, time, state, integrated' if ok else
-           'the output tuple order changed: callers read the wrong arrays')
-    rule_result_roles(ctx, m, fn)
+        V.speak_for(h)
+        view = V.view(h)
+        for r in view.returns():
+            val = canon(V.close(h, r.value, r))
+            for alt in alts(val):
+                n += 1
+                pend.put(rule, h, f'return = {norm(r.value)[:60]}', lookup_verdict(alt, axis, as_received(param)), line=r.lineno)
+    # (b) the cell index arrays the horizontal intersection returns: [start cell, midpoint cells ..., end cell] per segment
+    hz = m.func(HZ_FN)
+    # the ordered intersection coordinates of each axis: the middle of the returned coordinate array of that axis
+    inter = {}
+    for role, name, val, ret in hz_leaves(ctx, m, rule):
+        if role in ('lat coordinate', 'lon coordinate'):
+            v_ = canon(V.plain_of(val)) if is_mk(val, MUT) else val
+            b_ = pm_any(['np.column_stack((C_[:-1], P_, C_[1:]))', 'np.hstack((C_[:-1, None], P_, C_[1:, None]))',
+                         'np.concatenate((C_[:-1, None], P_, C_[1:, None]), axis=1)'], v_)
+            if b_ is not None:
+                inter[role.split()[0]] = b_['P_']
 
-    # ---- R1: split repeats element i -------------------------------------------------
-    try:
-        rule_split_points(ctx, m)
-    except Undecided as e:
-        ctx.undecided('C05-R1', (GRID, 'Gridder._dateline_split_*'), 'antimeridian split', str(e))
+    def midpoints_of(ax):
+        """coord_ok: the searched-for values are the midpoints between neighbouring intersection coordinates of axis `ax`"""
+        def ok(c):
+            bm_ = pm_any(['(P_[:, :-1] + P_[:, 1:]) / 2', '(P_[:, :-1] + P_[:, 1:]) * 0.5', '(P_[:, :-1] + P_[:, 1:]) / 2.0',
+                          'P_[:, :-1] + (P_[:, 1:] - P_[:, :-1]) / 2', 'P_[:, :-1] + np.diff(P_, axis=1) / 2',
+                          'np.mean((P_[:, :-1], P_[:, 1:]), axis=0)'], c)
+            if bm_ is None:
+                return of_axis(ax)(c)
+            for a2, p2 in inter.items():
+                if same(p2, bm_['P_']):
+                    if a2 == ax:
+                        return True, ''
+                    return False, f'the midpoints of the {a2} intersection coordinates are looked up on the {ax} axis'
+            return of_axis(ax)(c)
+        return ok
 
-    # ---- R5: direction signs come from the coordinates themselves ------------------------
-    hz = m.func('Gridder._trajectory_intersection_points_and_cells_horizontal')
-    for ax, coord in (('lat', 'lats'), ('lon', 'lons')):
-        d = single_def_value(hz.node, f'{ax}_change_signs')
-        ok = d is not None and norm(d) == f'np.sign(np.diff({coord}))'
-        ctx.ob('C05-R5', hz, f'{ax}_change_signs = {norm(d) if d is not None else "?"}', ok,
-               'direction of travel along this axis, from the coordinates' if ok else
-               ('the ordering direction is not the sign of the coordinate difference: a leg that stays inside one '
-                f'{ax} band (index change 0) still has a direction, and its intersection points get mis-ordered'),
-               line=(d.lineno if d is not None else hz.node.lineno))
+    for role, name, val, ret in hz_leaves(ctx, m, rule):
+        if role not in ('lat index', 'lon index'):
+            continue
+        axis = role.split()[0]
+        attr = {'lat': 'grid_latitudes', 'lon': 'grid_longitudes'}[axis]
+        coord = {'lat': 'lats', 'lon': 'lons'}[axis]
+        rets = [ret]
+        if is_mk(val, MUT):
+            _, alters = V.alterations_of(val)
+            for st in alters:
+                okst = isinstance(st, ast.Assign) and len(st.targets) == 1 and isinstance(st.targets[0], ast.Subscript) and \
+                    norm(st.value) in ('np.nan', 'numpy.nan', 'float("nan")', "float('nan')", 'math.nan')
+                if not okst:
+                    pend.put(rule, hz, f'returned {role} array', (None, f'`{norm(st)[:70]}` alters the cell indices after the look-up'))
+            val = canon(V.plain_of(val))
+        b = pm_any(['np.column_stack((S_[:-1], M_, E_[1:]))', 'np.hstack((S_[:-1, None], M_, E_[1:, None]))',
+                    'np.concatenate((S_[:-1, None], M_, E_[1:, None]), axis=1)'], val)
+        if b is None:
+            pend.put(rule, hz, f'returned {role} array', (None, f'`{show(val, 90)}` is not [start cell | midpoint cells | end cell] per segment'))
+            continue
+        for tag, e in (('start', b['S_']), ('end', b['E_'])):
+            n += 1
+            pend.put(rule, hz, f'{axis} cell of the segment {tag} points = {show(e, 50)}', lookup_verdict(e, attr, as_received(coord)),
+                     line=rets[0].lineno)
+        M = b['M_']
+        bm = pm_any(['np.where(np.isnan(X_), np.nan, L_)', 'np.where(~np.isnan(X_), L_, np.nan)'], M)
+        n += 1
+        if bm is not None:
+            def mid_ok(c, x=bm['X_'], ax=axis):
+                if not same(c, x):
+                    return False, f'the NaN padding is taken from `{show(x, 40)}` but the cells are looked up for `{show(c, 40)}`'
+                return midpoints_of(ax)(c)
+            pend.put(rule, hz, f'{axis} cells of the piece midpoints = {show(M, 50)}', lookup_verdict(bm['L_'], attr, mid_ok),
+                     line=rets[0].lineno)
+        else:
+            ok, why = lookup_verdict(M, attr, midpoints_of(axis))
+            if ok:
+                ok, why = False, ('the midpoint cells are looked up without restoring the NaN padding: padding columns get a cell '
+                                  'index, the count of pieces per segment is wrong and outputs no longer line up')
+            pend.put(rule, hz, f'{axis} cells of the piece midpoints = {show(M, 50)}', (ok, why), line=rets[0].lineno)
+    ctx.floor(rule + '/lookups', n, 10, 'cell look-ups (4 index helpers, 3 per horizontal axis)')
+    # (c) every other search of an axis in the module: own axis, left side
+    nsearch = 0
+    for fi in m.functions.values():
+        if '<locals>' in fi.qualname:
+            continue
+        for c in calls_in(fi.node):
+            if not call_name(c).endswith('searchsorted') or isinstance(c.func, ast.Name):
+                continue
+            nsearch += 1
+            at = stmt_of(c)
+            cc = canon(V.close(fi, c, at))
+            if not (isinstance(cc, ast.Call) and call_name(cc) == 'np.searchsorted' and len(cc.args) >= 2):
+                continue
+            ax, co = cc.args[0], cc.args[1]
+            raw_co = (c.args[1] if len(c.args) > 1 else kwarg(c, 'v')) if call_name(c).startswith(('np.', 'numpy.')) else \
+                (c.args[0] if c.args else kwarg(c, 'v'))
+            sites = []
+            if isinstance(ax, ast.Name) and ax.id in fi.params:
+                # a helper that searches the axis it is given: every call site must give it a grid axis
+                for caller, call, callee_ in module_calls(ctx, m):
+                    if callee_ is not fi and callee_ != fi:
+                        continue
+                    bind = _bind_args(fi, call)
+                    if bind is None or ax.id not in bind:
+                        pend.put(rule, caller, f'{fi.name}(…)', (None, 'call shape not recognised'))
+                        continue
+                    a2 = canon(V.close(caller, bind[ax.id], stmt_of(call)))
+                    sites.append((caller, call, a2, bind[co.id] if isinstance(co, ast.Name) and co.id in bind else raw_co))
+            else:
+                sites.append((fi, c, ax, raw_co))
+            for where, call, a2, c2 in sites:
+                axw = _role_words(a2)
+                if not (isinstance(a2, ast.Attribute) and a2.attr.startswith('grid_') and show(a2.value) == 'self'):
+                    if isinstance(a2, ast.Name) and a2.id in where.params:
+                        continue        # passed further up: checked at that level
+                    pend.put(rule, where, f'searched axis {show(a2, 40)}', (None, 'not recognised as one of the grid\'s own axes'))
+                    continue
+                cw = _role_words(c2) if c2 is not None else set()      # roles of the searched-for values, as written
+                ok = not cw or cw == axw
+                ctx.ob(rule, where, f'search of {show(a2, 40)} for {norm(c2)[:40] if c2 is not None else "?"}', ok, 'own axis' if ok else
+                       f'{"/".join(sorted(cw))} values are looked up on the {"/".join(sorted(axw))} axis', line=call.lineno, nontrivial=False)
+    ctx.floor(rule + '/searches', nsearch, 1, 'np.searchsorted calls in the gridding module')
+    # no spacing arithmetic on the gridding path (zero expected; positive control embedded)
+    def spacing(x):
+        return isinstance(x, ast.BinOp) and isinstance(x.op, ast.Sub) and isinstance(x.left, ast.Subscript) \
+            and isinstance(x.right, ast.Subscript) and norm(x.left.value) == norm(x.right.value) \
+            and isinstance(const_value(x.left.slice), int) and isinstance(const_value(x.right.slice), int) \
+            and abs(const_value(x.left.slice) - const_value(x.right.slice)) == 1 \
+            and re.search(r'grid_|axis|edges', norm(x.left.value)) is not None
+    ctx.control(rule, spacing(ast.parse('axis[1] - axis[0]').body[0].value), 'embedded `axis[1] - axis[0]` is recognised as a spacing')
+    roots = [m.func(q) for q in ENTRY_POINTS if q in m.functions]
+    for fi in closure(ctx.prog, roots):
+        if fi.file != m.relpath:
+            continue
+        for x in ast.walk(fi.node):
+            if spacing(x):
+                ctx.ob(rule, fi, f'spacing `{norm(x)}`', False,
+                       'a single spacing is taken from two elements of an axis: whatever is computed from it assumes an evenly '
+                       'spaced axis, which the gridder does not require', line=x.lineno)
+    pend.flush()
+
+
+def _bind_args(callee, call):
+    """{parameter: argument expression} of a plain call of `callee` (self / cls skipped), else None"""
+    if any(isinstance(a, ast.Starred) for a in call.args) or any(k.arg is None for k in call.keywords):
+        return None
+    ps = list(callee.params)
+    if callee.cls is not None and 'staticmethod' not in callee.decorators() and ps and isinstance(call.func, ast.Attribute):
+        ps = ps[1:]
+    if len(call.args) > len(ps):
+        return None
+    bind = dict(zip(ps, call.args))
+    bind.update({k.arg: k.value for k in call.keywords})
+    return bind
+
+
+def rule_outputs(ctx, m):
+    """C05-R1 / R2 / R4 on the closed values the share computation returns: latitude / longitude cells are the
+    intersection's own index arrays with the NaN padding masked out; altitude / time cells are the per-segment
+    look-up (per-point look-up of the coordinate as received, LAST point dropped) repeated by the count vector; state
+    values are variable[:-1] repeated by the count vector; the count vector is the number of cells per segment."""
+    V, fn, view, rows = share_model(ctx, m)
+    V.speak_for(fn)
+    pend = Pending(ctx)
+    n = 0
+    for r, elts in rows:
+        for pos, axis in ((0, 'lat'), (1, 'lon')):
+            x, at = elts[pos]
+            for alt in alts(canon(V.close(fn, x, at))):
+                n += 1
+                what = f'{axis} cell indices = {show(alt, 60)}'
+                b = pm('X_[~np.isnan(Y_)]', strip_casts(alt))
+                if b is None:
+                    pend.put('C05-R2', fn, what, (None, f'not recognised as the {axis} cell index array with its NaN padding masked out'))
+                    continue
+                rx, ry = hz_leaf(b['X_']), hz_leaf(b['Y_'])
+                if rx == f'{axis} index' and ry in ('lat index', 'lon index'):
+                    verdict = (True, 'the intersection\'s own index array, NaN padding masked out')
+                elif rx in ('lat index', 'lon index') and ry in ('lat index', 'lon index'):
+                    verdict = (False, f'the {axis} cell indices are taken from the {rx} array: cell rows and columns are swapped')
+                elif rx is not None and ry is not None:
+                    verdict = (False, f'the {axis} cell indices are `{rx}` masked by the NaN mask of `{ry}`: masked/flattened from a '
+                                      'different array, cell rows and columns no longer pair up')
+                else:
+                    verdict = (None, f'`{show(alt, 80)}` is not recognised as an array of the horizontal intersection')
+                pend.put('C05-R2', fn, what, verdict, line=getattr(at, 'lineno', r.lineno))
+        for pos, attr, param in ((2, 'grid_altitudes', 'altitudes'), (3, 'grid_times', 'times')):
+            x, at = elts[pos]
+            nrep = 0
+            for alt in alts(canon(V.close(fn, x, at))):
+                line = getattr(at, 'lineno', r.lineno)
+                if pm_any(['np.array(())', 'np.empty(0)', 'np.zeros(0)', 'np.array((), dtype=T_)', 'np.empty(0, dtype=T_)'], alt) is not None:
+                    continue
+                b = pm('np.repeat(S_, C_)', alt)
+                if b is None:
+                    pend.put('C05-R2', fn, f'{param} cells', (None, f'`{show(alt, 80)}` is not repeat(per-segment cell, count)'))
+                    continue
+                nrep += 1
+                okc, whatc = describe_count(b['C_'])
+                pend.put('C05-R2', fn, f'{param} cells expanded by the count vector',
+                         (okc, ('own per-segment indices expanded by the shared count vector: ' + whatc) if okc else
+                          f'the {param} cells are expanded by {whatc}, not by the number of cells each segment touches'), line=line)
+                pend.put('C05-R4', fn, f'{param} cell index = searchsorted(self.{attr}, {param}) − 1',
+                         lookup_verdict(b['S_'], attr, as_received(param)), line=line)
+                lk = parse_lookup(b['S_'])
+                if lk is not None:
+                    pend.put('C05-R1', fn, f'per-segment {param} cell = per-point cell{"".join("[" + t + "]" for t in lk["trail"])}',
+                             segment_trail(lk['trail'], f'{param} cell'), line=line)
+            ctx.floor(f'C05-R2/{param}', nrep, 1, f'expansions of the per-segment {param} cells')
+            n += nrep
+        x, at = elts[4]
+        try:
+            pv, _ = pervar_values(V, fn, view, x, at)
+        except Undecided as e:
+            ctx.undecided('C05-R1', fn, 'state values', str(e))
+        for src, var, val, at2 in pv:
+            line = getattr(at2, 'lineno', r.lineno)
+            if src != 'state_variables':
+                ctx.ob('C05-R1', fn, f'state output built from {src}', False,
+                       f'the state values of the pieces are computed from `{src}`, not from `state_variables`', line=line)
+                continue
+            b = pm('np.repeat(S_, C_)', val)
+            if b is None:
+                pend.put('C05-R1', fn, 'state values', (None, f'`{show(val, 80)}` is not repeat(per-segment state, count)'))
+                continue
+            n += 1
+            okc, whatc = describe_count(b['C_'])
+            pend.put('C05-R2', fn, 'state values expanded by the count vector',
+                     (okc, whatc if okc else f'the state values are expanded by {whatc}, not by the number of cells each segment touches'),
+                     line=line)
+            S, trail = b['S_'], []
+            while isinstance(S, ast.Subscript) and isinstance(S.slice, ast.Slice):
+                trail.insert(0, norm(S.slice))
+                S = S.value
+            if isinstance(strip_casts(S), ast.Name) and strip_casts(S).id == var:
+                pend.put('C05-R1', fn, 'state values of the segment start repeated per piece', segment_trail(trail, 'state value'), line=line)
+            else:
+                pend.put('C05-R1', fn, 'state values', (None, f'`{show(b["S_"], 60)}` is not the state variable itself'))
+    ctx.floor('C05-R2/outputs', n, 5, 'returned outputs recognised (2 horizontal, altitude, time, state)')
+    pend.flush()
+
+
+def rule_guards(ctx, m):
+    """C05-R7: every guarded division of the module is guarded exactly on its denominator (by value: a mask held in a
+    local, built by a helper or written inline is the same mask)."""
+    V = grid_values(ctx)
+    pend = Pending(ctx)
+    ndiv = nline = 0
+    for fi in m.functions.values():
+        if '<locals>' in fi.qualname:
+            continue
+        for c in calls_in(fi.node):
+            nm = call_name(c)
+            if nm in ('np.divide', 'numpy.divide', 'np.true_divide', 'numpy.true_divide'):
+                if kwarg(c, 'where') is None:
+                    continue
+            elif not (nm in ('np.where', 'numpy.where') and len(c.args) == 3 and any(
+                    isinstance(y, ast.BinOp) and isinstance(y.op, ast.Div) or
+                    (isinstance(y, ast.Call) and call_name(y) in ('np.divide', 'numpy.divide')) for y in ast.walk(c.args[1]))):
+                continue
+            cc = canon(V.close(fi, c, stmt_of(c)))
+            b = pm_any(['np.divide(N_, D_, out=O_, where=W_)', 'np.divide(N_, D_, where=W_)', 'np.true_divide(N_, D_, out=O_, where=W_)',
+                        'np.where(W_, N_ / D_, O_)', 'np.where(W_, np.divide(N_, D_), O_)'], cc)
+            if b is None:
+                if nm.endswith('where'):
+                    continue
+                pend.put('C05-R7', fi, norm(c)[:60], (None, 'guarded division not recognised'))
+                continue
+            ndiv += 1
+            nline += fi.qualname == 'calculate_line_parameters' or fi.qualname == HZ_FN
+            nonneg = mentions(b['D_'], lambda x: isinstance(x, ast.Call) and call_name(x) == DIST_FN) and \
+                pm_any([f'{DIST_FN}(A_, B_, C_, D_)', f'np.repeat({DIST_FN}(A_, B_, C_, D_), R_)'], b['D_']) is not None
+            pend.put('C05-R7', fi, f'np.divide(…, {show(b["D_"], 40)}, where={show(b["W_"], 50)})',
+                     guard_verdict(b['W_'], b['D_'], b['N_'], nonneg=nonneg), line=c.lineno)
+    ctx.floor('C05-R7', ndiv, 1, 'guarded divisions in grid.py')
+    ctx.floor('C05-R7/line', nline, 1, 'guarded division in the line parameters of the segments')
+    pend.flush()
+
+
+def hz_leaves(ctx, m, rule):
+    """[(role, closed canonical value)] of the arrays the horizontal intersection returns"""
+    V = grid_values(ctx)
+    hz = m.func(HZ_FN)
+    view = V.view(hz)
+    shape = V._result_shape(hz)
+    rets = view.returns()
+    if shape is None or len(rets) != 1:
+        ctx.undecided(rule, hz, 'return', 'the returned structure is not tuples / records of named arrays')
+
+    def leaves(node, path=()):
+        if isinstance(node, dict):
+            for (i, f), sub in node.items():
+                yield from leaves(sub, path + (i,))
+        else:
+            yield path, node
+    key = '_hz_whole'
+    if key not in ctx.__dict__:
+        ctx.__dict__[key] = V.close(hz, rets[0].value, rets[0])
+    whole = ctx.__dict__[key]
+    out = []
+    for path, name in leaves(shape):
+        val = whole
+        for step in path:
+            val = V._select(val, step) if val is not None else None
+        if val is None:
+            ctx.undecided(rule, hz, f'returned array `{name}`', 'component not visible in the returned value')
+        out.append((leaf_role(name), name, canon(val), rets[0]))
+    return out
+
+
+def _is_negation(st):
+    """mask of `X[mask] = -X[mask]` (rows under the mask change sign in place), else None"""
+    if not (isinstance(st, ast.Assign) and len(st.targets) == 1 and isinstance(st.targets[0], ast.Subscript)):
+        return None
+    t, v = st.targets[0], st.value
+    neg = isinstance(v, ast.UnaryOp) and isinstance(v.op, ast.USub) and isinstance(v.operand, ast.Subscript) and norm(v.operand) == norm(t)
+    neg = neg or (isinstance(v, ast.BinOp) and isinstance(v.op, ast.Mult) and norm(t) in (norm(v.left), norm(v.right))
+                  and '-1' in (norm(v.left), norm(v.right)))
+    neg = neg or (isinstance(v, ast.Call) and call_name(v) in ('np.negative', 'numpy.negative') and len(v.args) == 1 and norm(v.args[0]) == norm(t))
+    if not neg:
+        return None
+    return t.slice.elts[0] if isinstance(t.slice, ast.Tuple) else t.slice
+
+
+def rule_direction(ctx, m, rule):
+    """C05-R5 / C04-R5: each coordinate array the horizontal intersection returns is [way-point | ordered intersection
+    coordinates | next way-point] of ONE axis; the rows of intersection coordinates that are put in descending order
+    (negate - sort - negate) are the segments along which that same coordinate DEcreases, read from the way-point
+    coordinates themselves.  Reading the direction from the change of cell index loses the direction of a leg that
+    stays inside one band.  Which array is which axis is decided by the returned array it flows into, not by its name."""
+    V = grid_values(ctx)
+    hz = m.func(HZ_FN)
+    pend = Pending(ctx)
+    n = 0
+    for role, name, val, ret in hz_leaves(ctx, m, rule):
+        if role not in ('lat coordinate', 'lon coordinate'):
+            continue
+        axis = role.split()[0]
+        coord = {'lat': 'lats', 'lon': 'lons'}[axis]
+        other = {'lat': 'lons', 'lon': 'lats'}[axis]
+        if is_mk(val, MUT):
+            val = canon(V.plain_of(val))
+        b = pm_any(['np.column_stack((C_[:-1], P_, C_[1:]))', 'np.hstack((C_[:-1, None], P_, C_[1:, None]))',
+                    'np.concatenate((C_[:-1, None], P_, C_[1:, None]), axis=1)'], val)
+        if b is None:
+            pend.put(rule, hz, f'returned {role} array', (None, f'`{show(val, 90)}` is not [way-point | intersection points | next way-point]'))
+            continue
+        c = strip_casts(b['C_'])
+        pend.put(rule, hz, f'{role}s of the pieces start and end at the way-points',
+                 (True, f'{coord}[:-1] … {coord}[1:]') if isinstance(c, ast.Name) and c.id == coord else
+                 ((False, f'the {axis} coordinates of the piece end points are taken from `{show(c, 30)}`, not from `{coord}`')
+                  if isinstance(c, ast.Name) and c.id in hz.params else (None, f'`{show(c, 50)}` is not recognised as `{coord}` as received')),
+                 line=ret.lineno, nontrivial=False)
+        muts = {}
+        for x in ast.walk(b['P_']):
+            if is_mk(x, MUT):
+                muts[x.args[0].value] = x
+        nneg = 0
+        for mut in muts.values():
+            _, alters = V.alterations_of(mut)
+            for st in alters:
+                mask = _is_negation(st)
+                if mask is None:
+                    continue
+                nneg += 1
+                M = canon(V.close(hz, mask, st))
+                bm = pm_any(['np.sign(np.diff(X_)) == -1', 'np.sign(np.diff(X_)) < 0', 'np.diff(X_) < 0', 'X_[1:] < X_[:-1]',
+                             'X_[:-1] > X_[1:]', 'X_[1:] - X_[:-1] < 0', 'np.sign(X_[1:] - X_[:-1]) == -1',
+                             'np.sign(X_[1:] - X_[:-1]) < 0', 'np.sign(np.diff(X_)) <= -1', 'np.less(np.diff(X_), 0)'], M)
+                what = f'{axis} intersection coordinates: rows sorted descending where {show(M, 60, top=False)}'
+                if bm is not None and isinstance(strip_casts(bm['X_']), ast.Name):
+                    got = strip_casts(bm['X_']).id
+                    verdict = (True, 'direction of travel along this axis, from the coordinates') if got == coord else \
+                        ((False, f'the {axis} intersection coordinates are ordered by the direction of `{got}`, not of `{coord}`')
+                         if got == other else (None, f'`{got}` is not recognised as the way-point {axis} coordinates'))
+                elif mentions(M, lambda y: isinstance(y, ast.Call) and call_name(y).endswith('searchsorted')):
+                    verdict = (False, ('the ordering direction of the intersection points is not the sign of the coordinate difference '
+                                       f'but is derived from cell indices (`{show(M, 70)}`): a leg that stays inside one {axis} band (index '
+                                       'change 0) still has a direction; its intersection points get mis-ordered, its pieces zig-zag and '
+                                       'its length fractions sum to more than one'))
+                else:
+                    verdict = (None, f'direction mask `{show(M, 70)}` is not recognised')
+                pend.put(rule, hz, what, verdict, line=st.lineno)
+        n += nneg
+        if nneg % 2 or not nneg:
+            pend.put(rule, hz, f'{axis} intersection coordinates ordered along the segment',
+                     (None, f'{nneg} negate-in-place statements found on the intersection coordinates (expected negate - sort - negate)'))
+    ctx.floor(rule, n, 4, 'negate-sort-negate statements on the intersection coordinates')
+    pend.flush()
+
+
+FLAGS_FN = 'crosses_dateline'
+
+
+def _is_flags(e):
+    return isinstance(e, ast.Call) and call_name(e) == FLAGS_FN
+
+
+def _only_flags(v):
+    """closed value `v` is computed from the crossing flags and constants alone (a position / an element of the flags)"""
+    class T(ast.NodeTransformer):
+        def visit_Call(self, n):
+            if _is_flags(n):
+                return ast.Constant(value='FLAGS')
+            self.generic_visit(n)
+            return n
+    from .c04 import tcopy
+    w = T().visit(tcopy(v))
+    return mentions(v, _is_flags) and not any(isinstance(x, ast.Name) and x.id not in ('np', 'numpy', 'int', 'operator', 'abs', 'bool')
+                                              for x in ast.walk(w))
+
+
+def _nonzero_test(t, allow_bare):
+    """(ok, why): `t` is true exactly at the non-zero entries of a signed flags array (closed value)"""
+    b = pm_any(['F_ != 0', 'np.abs(F_) > 0', 'np.abs(F_) != 0', 'np.abs(F_) == 1', 'np.abs(F_) >= 1', 'np.abs(F_)', 'F_.astype(bool)',
+                'F_ ** 2', 'F_ * F_', 'np.square(F_)'], t)
+    if b is not None and _is_flags(b['F_']):
+        return True, 'non-zero flags'
+    if _is_flags(t):
+        if allow_bare:
+            return True, 'non-zero flags'
+        return False, ('the flags are signed (+1 for a westward, −1 for an eastward crossing): the position of their maximum / minimum is '
+                       'the crossing segment for one direction only - for the other it is the first segment that does not cross, the '
+                       'sign read there is 0 and the trajectory is split at the wrong segment')
+    b = pm_any(['F_ > K_', 'F_ < K_', 'F_ == K_', 'F_ >= K_', 'F_ <= K_'], t)
+    if b is not None and _is_flags(b['F_']) and const_value(b['K_']) is not None and not (
+            const_value(b['K_']) == 0 and isinstance(t.ops[0], (ast.NotEq, ast.Eq))):
+        return False, (f'`{show(t, 50)}` tests one crossing direction only (the flags are +1 westward, −1 eastward): a crossing in the '
+                       'other direction is not found')
+    return None, f'`{show(t, 60)}` is not recognised as a test for non-zero flags'
+
+
+def crossing_index_verdict(e):
+    """(ok, why) for a closed integer value derived from the crossing flags: it must be the position of the first
+    NON-ZERO flag"""
+    for _ in range(4):
+        b = pm_any(['int(X_)', 'X_.item()', 'np.intp(X_)', 'np.int64(X_)', 'operator.index(X_)'], e)
+        if b is None:
+            break
+        e = b['X_']
+    b = pm_any(['np.where(T_)[0][0]', 'np.nonzero(T_)[0][0]', 'np.flatnonzero(T_)[0]', 'np.argwhere(T_)[0][0]', 'np.argwhere(T_)[0, 0]',
+                'np.where(T_)[0].min()', 'np.flatnonzero(T_).min()', 'np.min(np.where(T_)[0])', 'np.min(np.flatnonzero(T_))',
+                'np.where(T_)[0].item()', 'np.flatnonzero(T_).item()'], e)
+    if b is not None:
+        return _nonzero_test(b['T_'], True)
+    b = pm('np.argmax(T_)', e)
+    if b is not None:
+        return _nonzero_test(b['T_'], False)
+    b = pm('np.argmin(T_)', e)
+    if b is not None and (_is_flags(b['T_']) or _nonzero_test(b['T_'], False)[0] is not None):
+        return False, ('the position of the minimum of the flags is the crossing segment for an eastward crossing only (or never, for a '
+                       'non-zero test): the trajectory is split at the wrong segment')
+    return None, f'`{show(e, 70)}` is not recognised as the position of the first non-zero crossing flag'
+
+
+def rule_crossing_index(ctx, m):
+    """C05-R10: the segment at which an antimeridian-crossing trajectory is split is the position of the first NON-ZERO
+    crossing flag (the flags are signed: +1 westward, −1 eastward), the crossing sign is the flag at that same position,
+    and whole-array tests of the flags test `!= 0`."""
+    V = grid_values(ctx)
+    pend = Pending(ctx)
+    flags_fn = m.functions.get(FLAGS_FN)
+    if flags_fn is None:
+        ctx.undecided('C05-R10', (GRID, FLAGS_FN), 'crossing flags', 'the function that computes the crossing flags is not found')
+    # the flags are signed: sign(difference) × (|difference| > π)
+    fv = V.view(flags_fn)
+    signed = any(mentions(canon(V.close(flags_fn, r.value, r)), lambda x: isinstance(x, ast.Call) and call_name(x) == 'np.sign')
+                 for r in fv.returns())
+    ctx.ob('C05-R10', flags_fn, 'crossing flags are signed', True, 'sign(Δlon) × (|Δlon| > π)' if signed else 'unsigned flags',
+           nontrivial=False)
+    if not signed:
+        return
+    # parameters that receive the flags (one level up the call chain, repeated to a fixpoint)
+    flag_params = {}
+    for _ in range(3):
+        for fi in m.functions.values():
+            if '<locals>' in fi.qualname:
+                continue
+            sites = [(c_, call) for c_, call, callee_ in module_calls(ctx, m) if callee_ == fi]
+            for p in fi.params:
+                if not sites or (fi.qualname, p) in flag_params:
+                    continue
+                vals = []
+                for caller, call in sites:
+                    bind = _bind_args(fi, call)
+                    if bind is None or p not in bind:
+                        vals = None
+                        break
+                    vals.append(_flags_subst(canon(V.close(caller, bind[p], stmt_of(call))), caller, flag_params))
+                if vals and all(_is_flags(v) for v in vals):
+                    flag_params[(fi.qualname, p)] = vals[0]
+    nidx = ntest = 0
+    for fi in m.functions.values():
+        if '<locals>' in fi.qualname or fi.qualname == FLAGS_FN:
+            continue
+        mine = {p for (q, p) in flag_params if q == fi.qualname}
+        has_call = any(call_name(c) == FLAGS_FN for c in calls_in(fi.node))
+        if not mine and not has_call:
+            continue
+        cl = lambda e, at: _flags_subst(canon(V.close(fi, e, at)), fi, flag_params)
+        seen = set()
+        # locals that (may) depend on the flags, by name: only expressions that mention one of them are closed
+        tainted = set(mine)
+        for _ in range(6):
+            grew = False
+            for t_, st_, how in stores_to(fi.node):
+                v_ = getattr(st_, 'value', None)
+                if v_ is None:
+                    continue
+                if (names_in(v_) & tainted) or any(isinstance(y, ast.Call) and call_name(y) == FLAGS_FN for y in ast.walk(v_)):
+                    for nm_ in {y.id for y in ast.walk(t_) if isinstance(y, ast.Name)} - tainted:
+                        tainted.add(nm_)
+                        grew = True
+            if not grew:
+                break
+        touches = lambda e: bool(names_in(e) & tainted) or any(isinstance(y, ast.Call) and call_name(y) == FLAGS_FN for y in ast.walk(e))
+        local_calls = {id(c_): callee_ for caller_, c_, callee_ in module_calls(ctx, m) if caller_ == fi}
+
+        def check_index(e, at, what):
+            nonlocal nidx
+            v = cl(e, at)
+            for _ in range(3):
+                b = pm('X_ + K_', v) or pm('X_ - K_', v)
+                if b is not None and const_value(b['K_']) is not None:
+                    v = b['X_']
+            if not _only_flags(v) or ast.dump(v) in seen:
+                return v
+            seen.add(ast.dump(v))
+            nidx += 1
+            pend.put('C05-R10', fi, f'{what}: {norm(e)[:40]} = {show(v, 60, top=True)}', crossing_index_verdict(v), line=getattr(e, 'lineno', at.lineno))
+            return v
+
+        for x in walk_no_nested(fi.node):
+            if isinstance(x, ast.stmt):
+                continue
+            at = stmt_of(x)
+            if at is fi.node or at is None:
+                continue        # defaults / annotations of the signature
+            # (1) element reads / slices whose position is derived from the flags
+            if isinstance(x, ast.Subscript) and isinstance(x.ctx, ast.Load) and touches(x.slice):
+                base = cl(x.value, at)
+                parts = [x.slice.lower, x.slice.upper] if isinstance(x.slice, ast.Slice) else \
+                    ([] if isinstance(x.slice, ast.Tuple) else [x.slice])
+                for ix in parts:
+                    if ix is None or isinstance(ix, ast.Constant) or not touches(ix):
+                        continue
+                    v = cl(ix, at)
+                    if is_mask(v) or not _only_flags(v):
+                        continue
+                    check_index(ix, at, 'crossing sign read at' if _is_flags(base) else f'position in {show(base, 20)}')
+            # (2) arguments of calls into the module that are derived from the flags: the index and the sign agree
+            if isinstance(x, ast.Call) and id(x) in local_calls:
+                callee = local_calls[id(x)]
+                if callee.qualname == FLAGS_FN:
+                    continue
+                idxs, signs = [], []
+                for a in list(x.args) + [k.value for k in x.keywords]:
+                    if not touches(a):
+                        continue
+                    v = cl(a, at)
+                    if _is_flags(v) or not _only_flags(v) or is_mask(v):
+                        continue
+                    b = pm('F_[I_]', v)
+                    if b is not None and _is_flags(b['F_']):
+                        signs.append(b['I_'])
+                    elif mentions(v, lambda y: isinstance(y, ast.Subscript) and _is_flags(y.value) and not isinstance(y.slice, ast.Slice)):
+                        continue        # computed from the crossing sign (an element of the flags), not a position
+                    else:
+                        idxs.append(check_index(a, at, f'crossing position passed to {callee.name}'))
+                for s_ in signs:
+                    for i_ in idxs:
+                        ok = same(s_, i_)
+                        ctx.ob('C05-R10', fi, f'{callee.name}(…): sign read at the crossing position', ok,
+                               'same position' if ok else
+                               f'the crossing sign is read at `{show(s_, 40)}` but the trajectory is split at `{show(i_, 40)}`',
+                               line=x.lineno, nontrivial=False)
+            # (3) whole-array tests of the flags
+            if isinstance(x, ast.Compare) and len(x.ops) == 1 and touches(x):
+                l, r_ = cl(x.left, at), cl(x.comparators[0], at)
+                whole = lambda y: _is_flags(y) or (pm('np.abs(F_)', y) is not None and _is_flags(pm('np.abs(F_)', y)['F_']))
+                if whole(l) or whole(r_):
+                    t = canon(ast.Compare(left=l, ops=x.ops, comparators=[r_]))
+                    ok, why = _nonzero_test(t, True)
+                    if isinstance(t.ops[0], ast.Eq) and const_value(t.comparators[0]) == 0:
+                        ok, why = True, 'zero flags'
+                    ntest += 1
+                    pend.put('C05-R10', fi, f'test of the crossing flags: {show(t, 50)}', (ok, why), line=x.lineno, nontrivial=False)
+    ctx.floor('C05-R10', nidx, 1, 'positions derived from the crossing flags')
+    ctx.rules_run.setdefault('C05-R10/tests', {})['found'] = ntest
+    one_way = canon(ast.parse(f'{FLAGS_FN}(a, b) > 0', mode='eval').body)
+    ctx.control('C05-R10', _nonzero_test(one_way, True)[0] is False, 'embedded `flags > 0` is recognised as a one-direction test')
+    pend.flush()
+
+
+def _flags_subst(v, fi, flag_params):
+    """closed value with the parameters of `fi` that receive crossing flags replaced by the flags they receive"""
+    mine = {p: val for (q, p), val in flag_params.items() if q == fi.qualname}
+    if not mine:
+        return v
+    from .c04 import _subst
+    return _subst(v, mine)
+
+def rule_mirror(ctx, m):
+    hz = m.func(HZ_FN)
     # ---- R6: mirrored lat/lon statements agree (sibling cross-check) ------------------------
     swap = {'lat': 'lon', 'lats': 'lons', 'latitude': 'longitude', 'latitudes': 'longitudes'}
     swap.update({v: k for k, v in list(swap.items())})
@@ -577,52 +1084,90 @@ def run(ctx):
                    line=(bad[1].lineno if bad else (b[0].lineno if b else hz.node.lineno)))
     ctx.floor('C05-R6', npairs, 12, 'mirrored lat/lon statement pairs')
 
-    # ---- R7: guarded divisions are guarded exactly on their denominator ------------------
-    ndiv = 0
-    for fi in m.functions.values():
-        for c in calls_in(fi.node):
-            if call_name(c) in ('np.divide', 'numpy.divide') and len(c.args) >= 2:
-                w = next((k.value for k in c.keywords if k.arg == 'where'), None)
-                if w is None:
-                    continue
-                ndiv += 1
-                den = norm(c.args[1])
-                wd = w
-                if isinstance(wd, ast.Name):
-                    d_ = single_def_value(fi.node, wd.id)
-                    wd = d_ if d_ is not None else wd
-                ok = isinstance(wd, ast.Compare) and len(wd.ops) == 1 and (
-                    (isinstance(wd.ops[0], ast.NotEq) and norm(wd.left) == den and norm(wd.comparators[0]) in ('0', '0.0')) or
-                    (isinstance(wd.ops[0], ast.Gt) and norm(wd.left) in (f'np.abs({den})', f'abs({den})') and norm(wd.comparators[0]) in ('0', '0.0')))
-                ctx.ob('C05-R7', fi, f'np.divide(…, {den}, where={norm(w)})', ok,
-                       'the division is skipped exactly where the denominator is zero' if ok else
-                       (f'the guard `{norm(wd)[:60]}` is not the exact test `{den} != 0`: with a tolerance, a segment whose '
-                        'coordinate difference is tiny but non-zero is treated as degenerate and its grid-line crossing is '
-                        'lost (NaN intersection, output arrays of different lengths)'), line=c.lineno)
-    ctx.floor('C05-R7', ndiv, 2, 'guarded divisions in grid.py')
 
-    # ---- R3: suffix + axis agreement ------------------------------------------------------
+
+def rule_axes(ctx, m):
+    """C05-R3: first/second markers agree (lexical), and - by value - each of the four coordinate outputs of the functions
+    that turn cell indices into cell coordinates is `self.grid_<axis>[<the share computation's index array of that same
+    axis>]`, in the documented order latitude, longitude, altitude, time (halves joined first then second)."""
     rule_suffix(ctx, m, rule='C05-R3')
-    cs = m.func('Gridder._cell_idxs_and_variables_for_dateline_split_trajectory')
+    V = grid_values(ctx)
+    pend = Pending(ctx)
     nax = 0
-    for f2 in (cs, m.func('Gridder._grid_trajectory_without_dateline_crossing')):
-        for t, st, how in stores_to(f2.node):
-            v = getattr(st, 'value', None)
-            if not isinstance(t, ast.Name) or v is None:
-                continue
-            for x in ast.walk(v):
-                if isinstance(x, ast.Subscript) and norm(x.value).startswith('self.grid_') and isinstance(x.slice, ast.Name):
-                    ga, ia, ta = axis_of(norm(x.value)), axis_of(x.slice.id), axis_of(t.id)
-                    nax += 1
-                    ok = ga == ia == ta and ga is not None
-                    ctx.ob('C05-R3', f2, f'{t.id} = {norm(x)}', ok, f'{ga} grid indexed by {ga} indices' if ok else
-                           f'{ta} output looks up the {ga} grid with {ia} indices', line=x.lineno)
+    order = ('lat', 'lon', 'altitude', 'time')
+    for qn in ('Gridder._cell_idxs_and_variables_for_dateline_split_trajectory', 'Gridder._grid_trajectory_without_dateline_crossing'):
+        f2 = m.func(qn)
+        view = V.view(f2)
+        for r in view.returns():
+            elts = ret_elts(view, r)
+            halves = {}
+            for pos, (x, at) in enumerate(elts[:4]):
+                want = order[pos]
+                val = canon(V.close(f2, x, at))
+                # the two halves of a split trajectory: each output joins the first call's result with the second call's
+                for alt in alts(val):
+                    bh = pm_any(['np.concatenate((A_, B_))', 'np.hstack((A_, B_))', 'np.append(A_, B_)', 'np.concatenate((A_, B_), axis=0)'], alt)
+                    if bh is None:
+                        continue
+                    src = [{ast.dump(z.args[0]) for z in ast.walk(bh[k]) if is_mk(z, RES)} for k in ('A_', 'B_')]
+                    if len(src[0]) == 1 and len(src[1]) == 1:
+                        pair = (next(iter(src[0])), next(iter(src[1])))
+                        ok = pair[0] != pair[1] and halves.setdefault('pair', pair) == pair
+                        ctx.ob('C05-R3', f2, f'{want} output joins the two halves', ok, 'first half then second half' if ok else
+                               (f'both halves of the {want} output are taken from the same half of the trajectory' if pair[0] == pair[1] else
+                                f'the {want} output joins the halves in another order than the other outputs'),
+                               line=getattr(at, 'lineno', r.lineno), nontrivial=False)
+                subs = [y for y in ast.walk(val) if isinstance(y, ast.Subscript) and isinstance(y.value, ast.Attribute)
+                        and y.value.attr.startswith('grid_') and show(y.value.value) == 'self']
+                if not subs:
+                    pend.put('C05-R3', f2, f'{want} output', (None, f'`{show(val, 80, top=True)}` does not look a grid axis up'))
+                for y in subs:
+                    ga = axis_of(y.value.attr)
+                    for ix in alts(y.slice):
+                        if isinstance(ix, ast.Constant) and ix.value is None:
+                            continue
+                        role = ix.args[1].value if is_mk(ix, RES) else None
+                        ia = axis_of(role) if isinstance(role, str) else None
+                        nax += 1
+                        if role is None or ia is None:
+                            pend.put('C05-R3', f2, f'{want} output = self.{y.value.attr}[{show(ix, 40)}]',
+                                     (None, 'the index is not recognised as one of the index arrays of the share computation'))
+                            continue
+                        ok = ga == ia == want and role.endswith('index')
+                        ctx.ob('C05-R3', f2, f'{want} output = self.{y.value.attr}[{role} of the share computation]', ok,
+                               f'{ga} grid indexed by {ga} indices' if ok else
+                               f'{want} output looks up the {ga} grid with {ia} indices', line=getattr(at, 'lineno', r.lineno))
     ctx.floor('C05-R3/axes', nax, 12, 'grid look-ups')
-    rule_lookup(ctx, m, 'C05-R8')
+    pend.flush()
+
+
+def run(ctx):
+    prog = ctx.prog
+    m = prog.module(GRID)
+    fn = m.func(SHARE_FN)
+
+    def split_points():
+        try:
+            rule_split_points(ctx, m)
+        except Undecided as e:
+            ctx.undecided('C05-R1', (GRID, 'Gridder._dateline_split_*'), 'antimeridian split', str(e))
+
     from .c04 import rule_forwarding
-    rule_forwarding(ctx, m, 'C05-R9', ('lats', 'lons', 'altitudes', 'times', 'state_variables', 'integrated_variables'),
-                    'the cells are then attributed from altered coordinates (a wrap into [-π, π) moves a way-point on 180°E to '
-                    '180°W and sends a track that never crosses the antimeridian through the split path)')
+    run_rules(ctx, 'C05', [
+        lambda: rule_outputs(ctx, m),                      # R1, R2, R4
+        lambda: rule_result_roles(ctx, m, fn),             # R2
+        split_points,                                      # R1
+        lambda: rule_direction(ctx, m, 'C05-R5'),
+        lambda: rule_mirror(ctx, m),                       # R6
+        lambda: rule_guards(ctx, m),                       # R7
+        lambda: rule_axes(ctx, m),                         # R3
+        lambda: rule_lookup(ctx, m, 'C05-R8'),
+        lambda: rule_forwarding(ctx, m, 'C05-R9', ('lats', 'lons', 'altitudes', 'times', 'state_variables', 'integrated_variables'),
+                                'the cells are then attributed from altered coordinates (a wrap into [-π, π) moves a way-point on 180°E '
+                                'to 180°W and sends a track that never crosses the antimeridian through the split path)'),
+        lambda: rule_crossing_index(ctx, m),               # R10
+    ])
     ctx.note('NOT decided: lat/lon cell attribution, path order of pieces, equality of shares with length shares '
              '(grid-line intersection ordering and midpoint look-up are real-valued geometry)')
-    ctx.assumptions += ['np.searchsorted(grid, x) − 1 is the index of the last grid value ≤ x (left side)']
+    ctx.assumptions += ['np.searchsorted(grid, x) − 1 is the index of the last grid value ≤ x (left side)',
+                        'indexing with a boolean mask returns a fresh flat array (a following .flatten() is the identity)']
